@@ -77,19 +77,26 @@ func (c *SimChain) verifySwapSpend(tx *ChainTx, so *SwapOutput) (string, error) 
 	if idx < 0 {
 		return "", errors.New("internal: swap input not found")
 	}
-	fetcher := txscript.NewCannedPrevOutputFetcher(so.PkScript, int64(so.Amount))
-	hashes := txscript.NewTxSigHashes(m, fetcher)
-	vm, err := txscript.NewEngine(so.PkScript, m, idx, txscript.StandardVerifyFlags, nil, hashes, int64(so.Amount), fetcher)
-	if err != nil {
-		return "", fmt.Errorf("mandatory-script-verify-flag-failed (%v)", err)
-	}
-	if err := vm.Execute(); err != nil {
-		return "", fmt.Errorf("mandatory-script-verify-flag-failed (%v)", err)
-	}
-	if err := bip68ok(m.Version, m.TxIn[idx].Sequence, c.Confirmations(so.TxID)); err != nil {
+	if err := verifyBtcInput(m, idx, so.PkScript, int64(so.Amount), c.Confirmations(so.TxID)); err != nil {
 		return "", err
 	}
 	return classifyWitness(len(m.TxIn[idx].Witness)), nil
+}
+
+// verifyBtcInput is the acceptance rule of the simulated Bitcoin chain for one
+// input: btcd's script engine with the standard flags, then BIP68 against the
+// depth of the spent output.
+func verifyBtcInput(m *wire.MsgTx, idx int, pkScript []byte, amount int64, confirmations uint32) error {
+	fetcher := txscript.NewCannedPrevOutputFetcher(pkScript, amount)
+	hashes := txscript.NewTxSigHashes(m, fetcher)
+	vm, err := txscript.NewEngine(pkScript, m, idx, txscript.StandardVerifyFlags, nil, hashes, amount, fetcher)
+	if err != nil {
+		return fmt.Errorf("mandatory-script-verify-flag-failed (%v)", err)
+	}
+	if err := vm.Execute(); err != nil {
+		return fmt.Errorf("mandatory-script-verify-flag-failed (%v)", err)
+	}
+	return bip68ok(m.Version, m.TxIn[idx].Sequence, confirmations)
 }
 
 func plainBtcSpend(txid string, vout uint32) string {
